@@ -43,6 +43,7 @@ def run(F, rep, tier):
         rep.ob("TEMPLATES", "ir|unanalysable|%s" % u[1], False, "lowering code the template evaluator cannot follow: %s" % (u,), u[2])
     local_rule(F, rep, T)
     definition_template(F, rep, T)
+    source_variables_have_slots(F, rep, T)
     declaring_ops(F, rep, T)
     snapshot(F, rep, T)
     import c01
@@ -264,3 +265,41 @@ def definition_template(F, rep, T, rule="LOCAL"):
            "variable that is not declared where its definition stands and filled once has no slot of its own - the value is built again "
            "where the emitter writes the variable's one use, once per run of *that* place, and closures of one activation no longer share it"
            % (got, "; unanalysable: %s" % (unk[0],) if unk else ""))
+
+
+def source_variables_have_slots(F, rep, T, rule="LOCAL"):
+    """A variable of the program - a definition, a parameter, the binding of a `case` branch - is a slot: a Lua local that is filled
+    where the binding happens and read where it is mentioned.  It is never the destination of an instruction the emitter may *inline*
+    (written through define(): pasted into its single use): the value would be computed where - and as often as - the one mention is
+    evaluated, from whatever its operands are by then (`case m do Just x -> .. fn -> x ..` reads m's payload when the closure runs)."""
+    n = 0
+    bad = []
+
+    def walk_items(items):
+        for it in items:
+            if not isinstance(it, (list, tuple)) or not it:
+                continue
+            if it[0] == "op":
+                yield it
+            elif it[0] == "alt":
+                for a in it[1]:
+                    yield from walk_items(a)
+            elif it[0] == "rep":
+                yield from walk_items(it[2])
+    for label, items, result, arm in T.all_templates():
+        for op in walk_items(items):
+            s_ = T.S.get(op[1])
+            if s_ is None or s_["dest"] is None or s_["dest"] >= len(op[2]):
+                continue
+            d = op[2][s_["dest"]]
+            if not (isinstance(d, (list, tuple)) and d and d[0] in ("resvar", "param")):
+                continue
+            n += 1
+            if s_["inlinable"]:
+                bad.append((label, op))
+    rep.ob(rule, "source-variables-are-never-inlined", not bad,
+           "no instruction that defines a variable of the program is one the emitter inlines (%d defining instructions)" % n if not bad else
+           "template %s defines the program variable `%s` with IR::%s, which the emitter inlines when the variable is mentioned once: the "
+           "value is then computed where the mention is evaluated - a closure that is called later, a place behind a call that rebinds the "
+           "operand - and not where the variable is bound" % (bad[0][0], bad[0][1][2][T.S[bad[0][1][1]]["dest"]][1], bad[0][1][1]),
+           bad[0][1][3] if bad and len(bad[0][1]) > 3 else None)
